@@ -536,6 +536,16 @@ impl<V> ParametersSpec<V> {
         self.indices.args.is_some() || self.indices.kwargs.is_some()
     }
 
+    /// Index of the `*args` parameter, if any.
+    pub(crate) fn args_index(&self) -> Option<u32> {
+        self.indices.args
+    }
+
+    /// Index of the `**kwargs` parameter, if any.
+    pub(crate) fn kwargs_index(&self) -> Option<u32> {
+        self.indices.kwargs
+    }
+
     /// Generate documentation for each of the parameters, using a custom formatter for default values.
     pub fn documentation_with_default_value_formatter<F>(
         &self,
